@@ -45,8 +45,10 @@ def key(c):
 
 def solve_one(c, shape):
     import emg3d
-    h = [np.ones(n)*L/n for n in shape]
-    grid = emg3d.TensorMesh(h, origin=(-L/2, -L/2, -L/2))
+    # uniform grid: cubic cells; cubes refine a fixed domain of size L
+    hc = L/shape[0] if len(set(shape)) == 1 else 200.0
+    h = [np.ones(n)*hc for n in shape]
+    grid = emg3d.TensorMesh(h, origin=tuple(-hc*n/2 for n in shape))
     if c['medium'] == 'iso':
         model = emg3d.Model(grid, 1.0)
     else:
